@@ -191,7 +191,14 @@ func (i *Iterator) Next(ctx context.Context, span telem.TimeSpan) (ok bool) {
 
 	i.reset(i.view.End.SpanRange(span).BoundBy(i.bounds))
 
-	if i.view.Span().IsZero() || i.view.End.BeforeEq(i.internal.TimeRange().Start) {
+	if i.view.Span().IsZero() {
+		return
+	}
+	// Position the domain iterator on the first domain that can hold samples of the
+	// new view. It cannot be assumed to be there already: a previous step whose view
+	// held no samples moves it one domain too far, and steps in the other direction
+	// (or a step that ran off the last domain) leave it anywhere.
+	if !i.internal.SeekGE(ctx, i.view.Start) || i.view.End.BeforeEq(i.internal.TimeRange().Start) {
 		return
 	}
 
@@ -355,7 +362,12 @@ func (i *Iterator) Prev(ctx context.Context, span telem.TimeSpan) (ok bool) {
 
 	i.reset(i.view.Start.SpanRange(-1 * span).BoundBy(i.bounds))
 
-	if i.view.Span().IsZero() || i.view.Start.AfterEq(i.internal.TimeRange().End) {
+	if i.view.Span().IsZero() {
+		return
+	}
+	// See Next: position the domain iterator on the last domain that can hold samples
+	// of the new view.
+	if !i.internal.SeekLE(ctx, i.view.End-1) || i.view.Start.AfterEq(i.internal.TimeRange().End) {
 		return
 	}
 
